@@ -125,6 +125,9 @@ func fidelityMain(args []string) {
 		s.FileChunk = 0
 		s.StdoutTTY = false
 		s.Env = nil
+		if len(s.Links) > 0 {
+			continue // symbolic links are not materialised for the cross-check
+		}
 		for pi := range s.Procs {
 			if s.Procs[pi].Stdin != nil {
 				st := *s.Procs[pi].Stdin
@@ -173,7 +176,7 @@ func fidelityMain(args []string) {
 			res.SelfDisagree++
 			continue
 		}
-		sim := runSession(s, fsFromFiles(s.Files, s.Dirs), false, false)
+		sim := runSession(s, fsFromSession(s.Files, s.Dirs, s.Links), false, false)
 		for i := range s.Procs {
 			so := realOut{Code: sim.Res[i].Code, Stdout: sim.Res[i].Stdout, Stderr: sim.Res[i].Stderr, Files: map[string]string{}}
 			for _, nme := range sim.FSPost[i].Names() {
